@@ -261,7 +261,7 @@ def _worker(args):
             signal.alarm(0)
         if harness is not None:
             return {"harness_error": harness, "index": i, "seed": seed}
-        rec = {"index": i, "seed": seed, "wall": time.time() - t0,
+        rec = {"index": i, "seed": seed, "wall": time.time() - t0, "pred": list(idxs[:idxs.index(i)]),
                "failures": res.get("failures", []),
                "stats": res.get("stats", {}),
                "faults": res.get("faults", {}),
@@ -376,8 +376,16 @@ def replay_file(mod, path):
     with open(path) as f:
         case = json.load(f)
     boot()
-    with quiet():
-        res = mod.execute(case)
+    if "sequence" in case:
+        # several runs executed one after the other in ONE process (state that the code under test keeps at
+        # module or class level travels from one to the next); the verdict is that of the last one
+        res = {"failures": [], "log": []}
+        for c in case["sequence"]:
+            with quiet():
+                res = mod.execute(c)
+    else:
+        with quiet():
+            res = mod.execute(case)
     for f_ in res.get("failures", []):
         print("REPLAY-FAILURE oracle=%s step=%s %s" % (f_["oracle"], f_["step"], f_["detail"]))
     print("REPLAY-DIGEST %s" % digest(res.get("log", [])))
@@ -422,14 +430,88 @@ def handle_failures(mod, recs, max_report=3):
             json.dump(canon_case(small), fh, indent=1, sort_keys=True)
         ok, out = confirm_fresh(prop, path, oracle)
         if not ok:
-            nondet.append((oracle, path, out[-2000:]))
-            continue
+            # not reproducible alone in a fresh interpreter.  Either the harness is at fault, or the code under
+            # test keeps process-global state and the failure needs the runs that preceded it in the same worker
+            # process: replay those (regenerated from their seeds) followed by the original failing case
+            seq_path = sequence_replay(mod, prop, r, case, oracle, f_, rdir)
+            if seq_path is None:
+                nondet.append((oracle, path, out[-2000:]))
+                continue
+            path = seq_path
+            small = case
         e = match_known(prop, oracle, small, mod)
         if e is not None:
             known.append((e, oracle, path))
         else:
             violations.append((oracle, path, f_["detail"], len(lst)))
     return violations, known, nondet, []
+
+
+def sequence_replay(mod, prop, rec, case, oracle, f_, rdir):
+    """Find a shortest-possible list of earlier runs of the same worker process after which `case` fails with
+    `oracle` in a fresh interpreter.  Returns the path of the sequence replay file, or None."""
+    tier = os.environ.get("PGSIM_TIER_FOR_SEQ") or "quick"
+    preds = []
+    for j in rec.get("pred", []):
+        seed = run_seed(prop, tier, j)
+        try:
+            c = mod.generate(seed, tier, j) if getattr(mod, "GENERATE_WITH_INDEX", False) else mod.generate(seed, tier)
+        except Exception:
+            continue
+        c["property"] = prop
+        c["run_seed"] = seed
+        c["index"] = j
+        preds.append(c)
+    if not preds:
+        return None
+    path = os.path.join(rdir, "%s-%d-%s.seq.json" % (prop, rec["seed"] % 10**10, oracle.replace("/", "_").replace("@", "_at_")))
+
+    def test(sub):
+        doc = {"property": prop, "sequence": [canon_case(c) for c in sub] + [canon_case(case)],
+               "expect": {"oracle": oracle, "detail": f_["detail"], "original_seed": rec["seed"],
+                          "note": "runs executed one after the other in one process; the last one fails"}}
+        with open(path, "w") as fh:
+            json.dump(doc, fh, indent=1, sort_keys=True)
+        ok, _ = confirm_fresh(prop, path, oracle)
+        return ok
+    if not test(preds):
+        try:
+            os.remove(path)
+        except OSError:
+            pass
+        return None
+    # delta debugging on the list of predecessors (each test is one fresh interpreter)
+    cur = preds
+    n = 2
+    budget = 40
+    while len(cur) >= 2 and budget > 0:
+        size = max(1, len(cur) // n)
+        chunks = [cur[k:k + size] for k in range(0, len(cur), size)]
+        reduced = False
+        for ch in chunks:
+            if budget <= 0:
+                break
+            budget -= 1
+            if test(ch):                                    # one chunk alone is enough
+                cur, n, reduced = ch, 2, True
+                break
+        if not reduced:
+            for k in range(len(chunks)):
+                if budget <= 0:
+                    break
+                comp = [c for j, ch in enumerate(chunks) if j != k for c in ch]
+                if len(comp) == len(cur) or not comp:
+                    continue
+                budget -= 1
+                if test(comp):
+                    cur, n, reduced = comp, max(n - 1, 2), True
+                    break
+        if not reduced:
+            if n >= len(cur):
+                break
+            n = min(len(cur), 2 * n)
+    test(cur)                                               # leave the minimal sequence in the file
+    return path
 
 
 def canon_case(case):
@@ -556,6 +638,7 @@ def main_check(mod, tier, replay=None):
                 recs.append({"index": -1, "seed": verif_seed(), "wall": 0.0, "failures": agg_fail["failures"],
                              "stats": {}, "faults": {}, "nontrivial": False, "measure": [], "digest": "",
                              "digest12": "", "cdigest": "agg", "batch": "aggregate", "case": agg_fail["case"]})
+        os.environ["PGSIM_TIER_FOR_SEQ"] = tier
         violations, known, nondet, more = handle_failures(mod, recs)
         known_lines = []
         status = 0
